@@ -1,7 +1,7 @@
 import FeatModel.Model.FEDual
-/-! kernel-checked: the generated tables of `keysH3` reproduce all samples of the real FEAT evaluators and their
-    gradient / Hessian polynomials are the formal derivatives of the value polynomials -/
+/-! kernel-checked: the generated tables of `keysH3a` -/
 namespace FeatModel.FE
+open FeatModel.Poly FeatModel.Gen
 set_option maxRecDepth 100000 in
-theorem tabs_keysH3 : keysH3.all okKey = true := by decide +kernel
+theorem tabs_keysH3a : keysH3a.all okKey = true := by decide +kernel
 end FeatModel.FE
